@@ -786,6 +786,12 @@ func main() {
 		runChild(opts, k, only)
 		return
 	}
+	if opts.Extra == "serve-only" { // development aid: only the node stream
+		o := hlib.NewOut(opts.OutDir)
+		defer o.Close()
+		fmt.Printf("hC18: %d served blocks\n", runServe(o, opts, 0))
+		return
+	}
 	only, onlySub := -1, -1
 	if opts.Replay != "" {
 		var in replayIn
